@@ -48,7 +48,7 @@ static DString *gen_doc(int ci, int shape, long d) {
 	d_string_append(s, "\n");
 	return s;
 }
-static int stack_maxdepth_idx = 4;
+static int stack_maxdepth_idx = 5;
 static void stack_case_decode(uint64_t i, int *ci, int *shape, int *di, int *wi) { *wi = i % NSW; i /= NSW; *shape = i % 3; i /= 3; *di = i % stack_maxdepth_idx; i /= stack_maxdepth_idx; *ci = (int)i; }
 static void run_stack(uint64_t i) {
 	int ci, shape, di, wi; stack_case_decode(i, &ci, &shape, &di, &wi);
@@ -130,7 +130,7 @@ int main(int argc, char **argv) {
 	if (cl) { char *copy = strdup(cl); for (char *p = strtok(copy, "\n"); p; p = strtok(NULL, "\n")) { FILE *f = fopen(p, "rb"); if (!f) continue; fseek(f, 0, SEEK_END); long n = ftell(f); rewind(f); unsigned char *b = malloc(n + 3); if (fread(b, 1, n, f) != (size_t)n) { fclose(f); continue; } fclose(f); b[n] = '\n'; b[n + 1] = '\n'; b[n + 2] = 0; if (memchr(b, 0, n) || strstr((char *)b, "{{TOC")) { free(b); continue; }   /* k copies of a TOC make the OUTPUT quadratic by definition */ const char *bn = strrchr(p, '/'); snprintf(nm, sizeof nm, "corpus:%.50s", bn ? bn + 1 : p); add_seed(nm, b, n + 2); } }
 	if (thorough) { KMAX = 64; }
 	k_level L[] = {
-		{ "q_stack", (uint64_t)NCONS * 4 * 3 * NSW, run_stack, desc_stack, "q", "29 nesting constructs x {openers only, matched, closers only} x depth {10,100,1e3,1e4} x {html,latex,fodt,opml,itmz,critic accept,critic reject,opml import}" },
+		{ "q_stack", (uint64_t)NCONS * 5 * 3 * NSW, run_stack, desc_stack, "q", "29 nesting constructs x {openers only, matched, closers only} x depth {10,100,1e3,1e4,1e5} x {html,latex,fodt,opml,itmz,critic accept,critic reject,opml import}" },
 		{ "t_stack", (uint64_t)NCONS * 6 * 3 * NSW, run_stack, desc_stack, "t", "same grid with depths up to 1e5 and 1e6" },
 #ifdef VP_COST
 		{ "cost", (uint64_t)n_seeds * 4, run_cost, desc_cost, "qt", "seeds (every line kind, block/pathological seeds, corpus documents) x {html,latex,fodt,opml}: cost(d^2k)/cost(d^k) <= 2.6 for doubling k" },
